@@ -102,6 +102,11 @@ Theorem C12_chain_SO2_log eps re im dre dim : (0 < re \/ (re < 0 /\ im <> 0)) ->
   is_derive (fun h => entry 0 (@run_op RS eps GSO2 OLog [] 0%Z (at_h h [[re; im]] [[dre; dim]])) 0 0) 0
     (snd (entry (0, 0) (@run_op (DS RS) (eps, 0) GSO2 OLog [] 0%Z (seed [[re; im]] [[dre; dim]])) 0 0)).
 Proof. exact (chain_SO2_log eps re im dre dim). Qed.
+Theorem C12_chain_SE2_log eps x y re im dx dy dre dim j : 0 < eps -> (0 < re \/ (re < 0 /\ im <> 0)) ->
+  eps < atan2 im re * atan2 im re -> (j < 3)%nat ->
+  is_derive (fun h => entry 0 (@run_op RS eps GSE2 OLog [] 0%Z (at_h h [[x; y; re; im]] [[dx; dy; dre; dim]])) 0 j) 0
+    (snd (entry (0, 0) (@run_op (DS RS) (eps, 0) GSE2 OLog [] 0%Z (seed [[x; y; re; im]] [[dx; dy; dre; dim]])) 0 j)).
+Proof. exact (chain_SE2_log eps x y re im dx dy dre dim j). Qed.
 Theorem C12_chain_SO3_exp eps x y z dx dy dz j : 0 < eps -> x * x + y * y + z * z <> eps -> (j < 4)%nat ->
   is_derive (fun h => entry 0 (@run_op RS eps GSO3 OExp [] 0%Z (at_h h [[x; y; z]] [[dx; dy; dz]])) 0 j) 0
     (snd (entry (0, 0) (@run_op (DS RS) (eps, 0) GSO3 OExp [] 0%Z (seed [[x; y; z]] [[dx; dy; dz]])) 0 j)).
